@@ -139,7 +139,8 @@ def random_keys(seed, tier):
             notes = rng.sample(allkeys, min(len(allkeys), rng.choice([4, 8, 16, 40])))
             acts = sorted(cfg["actions"])
             walks.append(random_key_walk(rng, cfg, length, notes, acts))
-        batches.append({"cfg": cfg, "cfgmode": "literal", "sub": "", "walks": walks})
+        # the engine looks keys up by the sub-handler the event came from
+        batches.append({"cfg": cfg, "cfgmode": "literal", "sub": "" if mode in ("off", "interrupt") else "Keyboard", "walks": walks})
     return batches
 
 
@@ -431,4 +432,73 @@ def c05_batches(seed, tier):
         tap("KEY_ESC")
         w.append({"ev": "disconnect"})
         batches.append({"cfg": cfg, "cfgmode": "toml", "sub": "", "optional": True, "walks": [w]})
+    return batches
+
+
+def action_axis_batches(seed, tier):
+    """Axes emulating actions (hat: octave up/down, mapping up/down, channel, panic, cc-learning) next to note keys and a
+    controller axis, with mapping switches: exercises AxisAction, the pair-reset rule through axes, and the shared
+    lastAnalogValue across mappings.  (No listed property is about action emulation itself; these lives are judged by
+    the general predicates: state agreement, silence of state actions, well-formedness, no stuck notes.)"""
+    rng = random.Random(seed * 59 + 13)
+    n_walks, length = (12, 120) if tier == "quick" else (100, 400)
+    batches = []
+    for flip in (False, True):
+        for sub in ("", "Gamepad"):
+            ax1 = {
+                "ABS_HAT0X": axis("action", act="octave_up", actNeg="octave_down", bidi=True, flip=flip),
+                "ABS_HAT0Y": axis("action", act="mapping_up", actNeg="mapping_down", bidi=True, flip=not flip),
+                "ABS_RX": axis("action", act="channel_up", actNeg="channel_down", bidi=True, dzn=1, dzd=10),
+                "ABS_RY": axis("action", act="panic", actNeg="cc_learning", bidi=True),
+                "ABS_RZ": axis("action", act="semitone_up", bidi=False),
+                "ABS_X": axis("cc", cc=7, ccNeg=8, bidi=True, dzn=1, dzd=10),
+            }
+            ax2 = dict(ax1)
+            ax2["ABS_X"] = axis("pitch_bend", dzn=1, dzd=4, flip=True)
+            ax2["ABS_RZ"] = axis("cc", cc=9, dzn=0, dzd=1)
+            info = {"ABS_HAT0X": {"min": -1, "max": 1}, "ABS_HAT0Y": {"min": -1, "max": 1}, "ABS_RX": {"min": -128, "max": 127},
+                    "ABS_RY": {"min": -128, "max": 127}, "ABS_RZ": {"min": 0, "max": 255}, "ABS_X": {"min": -128, "max": 127}}
+            keys = {"BTN_A": {"n": 60, "o": 0}, "BTN_B": {"n": 60, "o": 1}, "BTN_X": {"n": 0, "o": 0}, "BTN_Y": {"n": 127, "o": 15}}
+            cfg = base_cfg(mode=rng.choice(["off", "no_repeat", "interrupt", "retrigger"]), vel=rng.choice([1, 99, 127]),
+                           dChan=rng.randrange(16), dMap=rng.choice([1, 2]),
+                           actions={"BTN_START": "channel_up", "BTN_SELECT": "channel_down", "BTN_MODE": "panic"},
+                           maps=[{"name": "A", "keys": keys, "axes": ax1}, {"name": "B", "keys": {"BTN_A": {"n": 62, "o": 0}}, "axes": ax2}],
+                           axinfo=info)
+            walks = []
+            for _ in range(n_walks):
+                w, held, octv, semi = [], set(), 0, 0
+                for _ in range(length):
+                    r = rng.random()
+                    if r < 0.45:
+                        a = rng.choice(sorted(info))
+                        mn, mx = info[a]["min"], info[a]["max"]
+                        mid = (mn + mx) // 2 if mn == 0 else 0
+                        raw = rng.choice([mn, mx, mid, rng.randint(mn, mx), mid + (mx - mid) // 2 + rng.randint(-1, 1)])
+                        raw = max(mn, min(mx, raw))
+                        # keep octave / semitone within the bounds the other checks explore
+                        if a == "ABS_HAT0X" and raw != 0 and abs(octv) >= 8:
+                            raw = 0
+                        if a == "ABS_HAT0X":
+                            octv += (1 if raw > 0 else -1 if raw < 0 else 0) * (-1 if flip else 1)
+                        if a == "ABS_RZ" and abs(semi) >= 20:
+                            continue
+                        if a == "ABS_RZ" and raw > 191:
+                            semi += 1
+                        if any(on_float_boundary(info[a], m["axes"][a], raw) for m in cfg["maps"]):
+                            continue
+                        w.append({"ev": "axis", "a": a, "raw": raw})
+                    elif r < 0.75:
+                        k = rng.choice(sorted(keys))
+                        if k in held:
+                            held.discard(k)
+                            w.append({"ev": "release", "k": k})
+                        else:
+                            held.add(k)
+                            w.append({"ev": "press", "k": k})
+                    else:
+                        k = rng.choice(["BTN_START", "BTN_SELECT", "BTN_MODE"])
+                        w += [{"ev": "press", "k": k}, {"ev": "release", "k": k}]
+                w.append({"ev": "disconnect"})
+                walks.append(w)
+            batches.append({"cfg": cfg, "cfgmode": "literal", "sub": sub, "walks": walks})
     return batches
